@@ -1,9 +1,10 @@
 (* Property C07 — The source emits a conformant, complete and size-bounded PDU stream.
    Model: Source.v driven by state_machine(None) + full drain, no inbound PDUs.
    Reading: quantified over every file content, every configuration whose effective segment
-   length is >= 1 (a maximum packet length that cannot hold a base File Data PDU is refused with
-   ValueError at transaction start, see C19).  EOF <= max_packet_len needs the packet to be able
-   to hold an EOF PDU at all (known finding F19 otherwise). *)
+   length is >= 1 and whose maximum packet length can hold an EOF PDU (6 <= derived).  A maximum
+   packet length that cannot hold a base File Data PDU or cannot hold an EOF PDU is refused with
+   ValueError at transaction start (c07_packet_too_small_refused, see also C19; the latter is the
+   repair of finding F19), so File Data, EOF and ACK PDUs never exceed max_packet_len. *)
 From CFDP Require Import Base Fs Crc Checksum Handler Dest Source HandlerSpec SourceSpec.
 From CFDP.proofs Require Import StreamProofs.
 From RecordUpdate Require Import RecordSet.
@@ -26,7 +27,7 @@ Theorem c07_src_stream :
   get_remote (l_remotes c) (pr_dst p) = Some r ->
   pr_names p = Some (sn, dn) -> lookup fs sn = Some (File d) -> sn <> [] ->
   (bits = 8 \/ bits = 16 \/ bits = 32) -> 0 <= seq0 < 2 ^ bits ->
-  1 <= seg -> (mode = ACKED \/ mode = UNACKED) ->
+  1 <= seg -> 6 <= derived -> (mode = ACKED \/ mode = UNACKED) ->
   calculate_checksum (r_cktype r) (Some d) (zlen d) seg = Ok cks ->
   (mode = ACKED -> 0 < r_ack_ms r) -> (mode = UNACKED -> closure = true -> 0 < l_check_ms c) ->
   let s1 := fst (put_request p (src_fresh c seq0 bits fs)) in
@@ -49,15 +50,47 @@ Theorem c07_tiles_exact : forall seg d, 1 <= seg ->
 Proof. exact tiles_exact. Qed.
 Print Assumptions c07_tiles_exact.
 
-(* size bounds: File Data and ACK PDUs never exceed max_packet_len; EOF does not either as soon
-   as the packet can hold an EOF PDU at all *)
+(* size bounds: as soon as the packet can hold an EOF PDU (which transaction start enforces),
+   File Data, ACK and EOF PDUs never exceed max_packet_len *)
 Theorem c07_len_bounds : forall (h : hdr) (maxp seg : Z) off data,
   seg <= maxp - hdr_len h - fss_len h - crc_len h -> zlen data <= seg ->
+  6 <= maxp - hdr_len h - fss_len h - crc_len h ->
   pdu_len (PFileData h off data) <= maxp /\
-  (0 <= seg -> forall a c s, pdu_len (PAck h a c s) <= maxp) /\
-  (hdr_len h + 6 + fss_len h + crc_len h <= maxp -> forall c ck sz, pdu_len (PEof h c ck sz None) <= maxp).
+  (forall a c s, pdu_len (PAck h a c s) <= maxp) /\
+  (forall c ck sz, pdu_len (PEof h c ck sz None) <= maxp).
 Proof. exact len_bounds. Qed.
 Print Assumptions c07_len_bounds.
+
+(* the same for the stream of c07_src_stream: every File Data PDU of the stream, the EOF PDU and
+   any ACK PDU with the transaction's header fit r_max_packet, without further provisos *)
+Theorem c07_stream_len_bounds :
+  forall (c : lcfg) (seq0 bits : Z) (p : putreq) (r : rcfg) (d : bytes) (mode : Z),
+  let w := Z.max (l_idw c) (pr_dstw p) in
+  let large := 4294967295 <? zlen d in
+  let derived := r_max_packet r - (4 + 2 * w + bits / 8) - (if large then 8 else 4) - (if r_crc r then 2 else 0) in
+  let seg := match r_max_seg r with Some m => Z.min m derived | None => derived end in
+  let h := mkHdr TOWARDS_RECEIVER mode (r_crc r) large (l_id c) (pr_dst p) w seq0 (bits / 8) in
+  1 <= seg -> 6 <= derived ->
+  (forall t, In t (tiles seg d) -> pdu_len (fd_of h t) <= r_max_packet r) /\
+  (forall cond ck sz, pdu_len (PEof h cond ck sz None) <= r_max_packet r) /\
+  (forall a cond st, pdu_len (PAck h a cond st) <= r_max_packet r).
+Proof. exact stream_len_bounds. Qed.
+Print Assumptions c07_stream_len_bounds.
+
+(* a maximum packet length that cannot hold a File Data PDU, or cannot hold an EOF PDU (header,
+   directive code, condition code, checksum, file size, PDU CRC), is refused with ValueError at
+   transaction start; h is the header the transaction would use *)
+Theorem c07_packet_too_small_refused : forall s p r sn dn d,
+  s_put s = Some p -> pr_names p = Some (sn, dn) -> q_rcfg (s_p s) = Some r ->
+  lookup (fs_s s) sn = Some (File d) -> q_file_size (s_p s) = Some 0 -> q_md_only (s_p s) = false ->
+  (s_seq_bits s = 8 \/ s_seq_bits s = 16 \/ s_seq_bits s = 32) -> 0 <= s_seq_count s < 2 ^ s_seq_bits s ->
+  let w := Z.max (l_idw (s_cfg s)) (pr_dstw p) in
+  let h := mkHdr TOWARDS_RECEIVER (sc_mode (q_conf (s_p s))) (r_crc r) (4294967295 <? zlen d)
+                 (l_id (s_cfg s)) (pr_dst p) w (s_seq_count s) (s_seq_bits s / 8) in
+  (max_file_seg_len h (r_max_packet r) = None \/ r_max_packet r < hdr_len h + 6 + fss_len h + crc_len h) ->
+  snd (transaction_start s) = Err E_VALUE.
+Proof. exact packet_too_small_refused. Qed.
+Print Assumptions c07_packet_too_small_refused.
 
 (* non-vacuity: 5 bytes, segment length 2 *)
 Example c07_nv : tiles 2 [10; 11; 12; 13; 14] = [(0, [10; 11]); (2, [12; 13]); (4, [14])].
